@@ -7,18 +7,23 @@ sys.path.insert(0, HERE)
 import facts, extract
 out = set()
 sigs = {}
+adts = set()
 for cfg in extract.CONFIGS:
     extract.extract(cfg)
     d = os.path.join(extract.CACHE, 'facts-main-' + cfg)
     for f in glob.glob(os.path.join(d, '*.facts.jsonl')):
         for line in open(f):
             dd = json.loads(line)
+            if 'adt' in dd:
+                adts.add(facts.norm(dd['adt']))
             if 'path' in dd and dd.get('kind') in ('Fn', 'AssocFn') and not dd.get('promoted'):
                 out.add(facts.norm(dd['path']))
-                sigs[facts.norm(dd['path'])] = (dd.get('kind'), dd.get('asyncness', False), tuple(dd.get('sig_in') or []), dd.get('sig_out'))
+                pn = sorted(((pl['l'], n) for n, pl in (dd.get('names') or {}).items() if not pl['p'] and 1 <= pl['l'] <= dd.get('argc', 0) and '#' not in n))
+                sigs[facts.norm(dd['path'])] = (dd.get('kind'), dd.get('asyncness', False), tuple(dd.get('sig_in') or []), dd.get('sig_out'), [n for _, n in pn] if len(pn) == dd.get('argc', 0) else None)
 with open(os.path.join(HERE, 'known_fns.txt'), 'w') as fh:
     fh.write("# functions of rodbus / rodbus-ffi on the pinned tree (all feature configurations); anything else is an unknown helper and is inlined\n")
     for p in sorted(out):
         fh.write(p + '\n')
 json.dump({p: list(v) for p, v in sorted(sigs.items())}, open(os.path.join(HERE, 'known_sigs.json'), 'w'), indent=0)
+open(os.path.join(HERE, 'known_adts.txt'), 'w').write('\n'.join(sorted(a for a in adts if a.split('::')[0] in ('rodbus', 'rodbus_ffi'))) + '\n')
 print(len(out))
